@@ -404,7 +404,7 @@ BlockOfFrame(D, idx, f) ==
       txs  |-> Flatten(Strict([ k \in DOMAIN f.evs |-> D[f.evs[k]].txs ])),
       itxs |-> Flatten(Strict([ k \in DOMAIN f.evs |-> D[f.evs[k]].itxs ])),
       rcpt |-> << >>,
-      ts   |-> Median(FrameTimestamps(f)),
+      ts   |-> MedianTS(FrameTimestamps(f)),
       peers |-> f.peers, fws |-> f.fws, sigs |-> {} ]
 
 \* core.processAcceptedInternalTransactions: fold the accepted receipts
